@@ -13,6 +13,8 @@ pub mod raw_filter;
 pub mod tcp_process;
 pub mod ttl;
 pub mod uptime;
+#[cfg(huginn_net_verif)]
+pub mod verif_hooks;
 pub mod window_size;
 
 pub mod display;
